@@ -199,3 +199,104 @@ echo "end-$WHO" >> "$VTRACE"`})
 	}
 	wg.Wait()
 }
+
+// lockWaiterInterrupted: a build that is still WAITING for the workspace lock (another build holds it) receives
+// SIGINT / SIGTERM: it must exit non-zero within a bounded time and must not have started any command.
+func lockWaiterInterrupted(c *Ctx) {
+	grog, err := vc.BuildGrog("grog", nil)
+	if err != nil {
+		c.R.BrokenCheck("%v", err)
+		return
+	}
+	base, cleanup := scratchBase(c, "c18w")
+	defer cleanup()
+	src := &hist.Source{Files: map[string]hist.File{"p/in.txt": {Content: "in"}}}
+	src.Targets = append(src.Targets, hist.Target{Pkg: "p", Name: "hold", Tags: []string{"no-cache"}, Command: `echo "start-$WHO" >> "$VTRACE"
+while [ ! -e "$VMARK/go-$WHO" ]; do sleep 0.05; done
+echo "end-$WHO" >> "$VTRACE"`})
+	for _, sig := range []syscall.Signal{syscall.SIGINT, syscall.SIGTERM} {
+		box, err := hist.NewBox(base)
+		if err != nil {
+			c.R.BrokenCheck("%v", err)
+			return
+		}
+		src.Materialize(box.WS(), nil)
+		marks := filepath.Join(box.Dir, "marks")
+		os.MkdirAll(marks, 0o755)
+		os.WriteFile(box.Trace(), nil, 0o644)
+		start := func(who string) (*exec.Cmd, string) {
+			outPath := filepath.Join(box.Dir, "out-"+who)
+			f, _ := os.Create(outPath)
+			cmd := exec.Command(grog, "build", "//p:hold")
+			cmd.Dir = box.WS()
+			cmd.Env = []string{"PATH=" + os.Getenv("PATH"), "HOME=" + filepath.Join(box.Dir, "home"), "GROG_ROOT=" + box.Root(), "GROG_DISABLE_TEA=true", "GROG_COLOR=no",
+				"VTRACE=" + box.Trace(), "VMARK=" + marks, "WHO=" + who, "TMPDIR=" + os.TempDir()}
+			cmd.Stdout, cmd.Stderr = f, f
+			cmd.SysProcAttr = &syscall.SysProcAttr{Setpgid: true}
+			if err := cmd.Start(); err != nil {
+				return nil, outPath
+			}
+			return cmd, outPath
+		}
+		contains := func(p, needle string, d time.Duration) bool {
+			deadline := time.Now().Add(d)
+			for time.Now().Before(deadline) {
+				if b, _ := os.ReadFile(p); strings.Contains(string(b), needle) {
+					return true
+				}
+				time.Sleep(50 * time.Millisecond)
+			}
+			return false
+		}
+		name := fmt.Sprintf("%v while waiting for the workspace lock", sig)
+		a, _ := start("A")
+		if a == nil || !contains(box.Trace(), "start-A", 90*time.Second) {
+			c.R.Cap("scenario %q: build A did not reach its command: skipped", name)
+		} else {
+			b, bout := start("B")
+			if b != nil && contains(bout, "Waiting", 60*time.Second) {
+				b.Process.Signal(sig)
+				done := make(chan error, 1)
+				go func() { done <- b.Wait() }()
+				replay := map[string]any{"scenario": name}
+				select {
+				case werr := <-done:
+					outB, _ := os.ReadFile(bout)
+					replay["output_of_the_waiter"] = tail(string(outB), 500)
+					if werr == nil {
+						c.R.Violate(vc.Violation{Sig: "C18:exit-status-zero-after-signal:at:waiting-for-the-workspace-lock", Detail: name + ": the waiting build exited 0 although it was interrupted before it built anything", Replay: replay})
+					}
+					if tr, _ := os.ReadFile(box.Trace()); strings.Contains(string(tr), "start-B") {
+						c.R.Violate(vc.Violation{Sig: "C18:targets-start-after-signal:at:waiting-for-the-workspace-lock", Detail: name + ": the interrupted waiter started its command", Replay: replay})
+					}
+				case <-time.After(30 * time.Second):
+					c.R.Violate(vc.Violation{Sig: "C18:no-exit-after-signal:at:waiting-for-the-workspace-lock", Detail: name + ": the waiting build did not exit within 30 s of the signal", Replay: replay})
+					syscall.Kill(-b.Process.Pid, syscall.SIGKILL)
+					<-done
+				}
+				c.R.Nontrivial("lock-waiter|" + name)
+			} else {
+				c.R.Cap("scenario %q: build B never printed that it is waiting for the lock: skipped", name)
+				if b != nil {
+					syscall.Kill(-b.Process.Pid, syscall.SIGKILL)
+					b.Wait()
+				}
+			}
+		}
+		os.WriteFile(filepath.Join(marks, "go-A"), nil, 0o644)
+		os.WriteFile(filepath.Join(marks, "go-B"), nil, 0o644)
+		if a != nil {
+			done := make(chan error, 1)
+			go func() { done <- a.Wait() }()
+			select {
+			case <-done:
+			case <-time.After(60 * time.Second):
+				syscall.Kill(-a.Process.Pid, syscall.SIGKILL)
+				<-done
+			}
+		}
+		c.R.AddCounts(1, 1, 2, 1)
+		c.R.Outcome("lock-waiter|" + name)
+		box.Remove()
+	}
+}
